@@ -6,7 +6,7 @@ from __future__ import annotations
 
 import itertools
 
-from ..absgrammar import alt, call, cut, eof, grammar, group, named, opt, rule, seq, star, tok
+from ..absgrammar import alt, call, cut, eof, grammar, group, named, opt, ovrlist, rule, seq, star, tok
 from ..common import Check
 from ..pegcheck import conformance
 
@@ -38,6 +38,9 @@ def families(E, A, T):
         # a cycle that passes through the element AFTER an inline optional / closure prefix (hidden behind a nullable non-call prefix)
         'prefix-indirect': [('s', seq(call(A), eof())), (A, seq(opt(u), call(E))), (E, alt(seq(call(A), m), call(T))), (T, n)],
         'closure-prefix-indirect': [('s', seq(call(A), eof())), (A, seq(star(u), call(E))), (E, alt(seq(call(A), m), call(T))), (T, n)],
+        # the seed alternative builds its value with @+: (a list): every growth round must nest the previous seed as ONE element
+        'ovrlist-seed': [('s', seq(call(E), eof())), (E, alt(seq(call(E), p, call(T)), ovrlist(call(T)))), (T, n)],
+        'ovrlist-seed-indirect': [('s', seq(call(E), eof())), (E, alt(seq(call(A), p, call(T)), ovrlist(call(T)))), (A, call(E)), (T, n)],
     }
 
 
@@ -74,7 +77,7 @@ def classify(it, text, so, ir, why):
     # KF-C03-1 (Dev_StaticLeader): the recursion leader is chosen statically as min(rule name) over the cycle; when the cycle is
     # entered through another rule of the cycle (alias sorting before the recursive rule, or entry through the alias) the seed
     # is grown for the wrong rule and the parse fails or stops after one operator.
-    if it['fam'] == 'aliased' and A < E and why.startswith('spec accepts, impl fail'):
+    if it['fam'] in ('aliased', 'ovrlist-seed-indirect') and A < E and why.startswith('spec accepts, impl fail'):
         return 'KF-C03-1'
     # the same static leader seen through another shape: the cycle a = ['-'] e ; e = a '*' | t is entered, at the position after the
     # prefix, through e, but seeds are grown for min(name) = a: depending on the names the parse stops early (spec accepts, engine
@@ -99,7 +102,7 @@ def run(tier):
     from ..pegcheck import machine_check
     mstep = 6 if tier == 'quick' else 1
     machine_check(ck, items[ck.seed % mstep::mstep], 'C03 left recursion', maxlen=3 if tier == 'quick' else 4, maxtexts=40 if tier == 'quick' else 150)
-    ck.cov['rule'] = (f'{len(items)} grammars = 12 families (direct, aliased, aliased entered through the alias, mutual, '
+    ck.cov['rule'] = (f'{len(items)} grammars = 18 families (seed built with @+:, cut in an inline operator choice, cycles after an optional / closure prefix, direct, aliased, aliased entered through the alias, mutual, '
                       'optional-prefixed, named, direct plus mutual, right-recursive mix, two precedence levels, unary prefix, right-recursive power) x all 24 '
                       'assignments of rule names from {a,e,t,x} x all strings over the operator/operand alphabet up to length '
                       f'{5 if tier == "quick" else 7}; non-trivial = accepted with distinct (grammar, AST)')
